@@ -12,6 +12,9 @@ package main
 //             config absent, null, {} or [], zero descriptors as query, subject and fetch target
 //   many      twelve signatures of one subject
 //   squat     (squat.go) the manifest / envelope / config bytes of a push are in the layout before it
+//   layers    (layers.go) notation manifests, image and legacy, with 0 / 2 / 3 layers whose extra layers
+//             take every media type of a small alphabet (the OCI empty descriptor among them), the
+//             genuine envelope at every position; the single layer that IS the empty descriptor
 //   syntax    rarely used legal JSON: duplicate members, keys in another letter case, numbers
 //             as strings / floats / exponents, non-string annotation values, leading white
 //             space, unknown members, null / [] documents, media types differing in case,
@@ -35,7 +38,7 @@ const (
 	nEmpties  = 24
 	nSyntax   = 24
 	nMany     = 4
-	nScripted = nRelist + nPosition + nEmpties + nSyntax + nMany + nSquat
+	nScripted = nRelist + nPosition + nEmpties + nSyntax + nMany + nSquat + nLayers
 )
 
 func (h *H) scripted(id int64) string {
@@ -58,8 +61,12 @@ func (h *H) scripted(id int64) string {
 		h.many(int(id) - nRelist - nPosition - nEmpties - nSyntax)
 		return "scripted:many"
 	}
-	h.squat(int(id) - nRelist - nPosition - nEmpties - nSyntax - nMany)
-	return "scripted:squat"
+	if id < nRelist+nPosition+nEmpties+nSyntax+nMany+nSquat {
+		h.squat(int(id) - nRelist - nPosition - nEmpties - nSyntax - nMany)
+		return "scripted:squat"
+	}
+	h.layers(int(id) - nRelist - nPosition - nEmpties - nSyntax - nMany - nSquat)
+	return "scripted:layers"
 }
 
 // many: twelve signatures of ONE subject (the listing grows to its largest size), foreign
